@@ -196,6 +196,15 @@ func checkStopWebp(p *Program, r *Report) {
 			}
 		}
 		final := pr.posOf(o)
+		truncated := false
+		for _, ev := range o.St.events {
+			if ev.Kind == "readfail" {
+				truncated = true // the input ended inside the structure: not a well-formed file, position bounded by EOF
+			}
+		}
+		if truncated {
+			continue
+		}
 		seen[kind]++
 		switch kind {
 		case "VP8 ", "VP8L":
